@@ -86,6 +86,8 @@ type Store struct {
 	adds    int
 	// AddStall, if set, decides (under mu) whether the n-th Add stalls until the caller's context ends (OnStall is
 	// called first, outside mu - typically it ends that context) and is then dropped with the context's error.
+	// PinDelay: how long a pin request takes.
+	PinDelay time.Duration
 	AddStall func(n int, c cid.Cid) bool
 	OnStall  func()
 	stalls   int
@@ -315,7 +317,11 @@ func (p *pinAPI) Add(ctx context.Context, pth path.Path, _ ...options.PinAddOpti
 	if p.s.record {
 		p.s.events = append(p.s.events, Event{Seq: p.s.seq, Kind: "pin", Cid: pth.String()})
 	}
+	d := p.s.PinDelay
 	p.s.mu.Unlock()
+	if d > 0 {
+		time.Sleep(d) // a recursive pin takes its time (it walks the DAG below the block)
+	}
 	return nil
 }
 
